@@ -52,7 +52,7 @@ def run(rep):
     # i32/isize/usize parse): the replay enumerator
     native.bounded_stand_in(rep, ID, "c20", [], "c20_values_round_trip",
                             "lexical form in the datatype's lexical space and try_from_term(x) == x (bit for bit for f64, also through a SimpleTerm literal) on sampled values; try_from_term on short lexical forms never panics and returns the denoted value",
-                            "integers -1000..1000, 10^k +- 1, type extremes; 200 000 pseudo-random f64 bit patterns (fixed seed), a 17-digit mantissa at every decimal exponent, 2^k and its two neighbours for every binary exponent, 20 hand-picked doubles; all lexical forms of <= 2 characters over an 8-letter alphabet; xsd:boolean forms; 468 non-ASCII datatype IRIs of the byte lengths of the XSD IRIs (no panic, no success)",
+                            "integers -1000..1000, 10^k +- 1, type extremes; 200 000 pseudo-random f64 bit patterns (fixed seed), a 17-digit mantissa at every decimal exponent, 2^k and its two neighbours for every binary exponent, 20 hand-picked doubles; all lexical forms of <= 2 characters over an 8-letter alphabet; xsd:boolean forms; 36 malformed double / float forms incl. signed NaN; 468 non-ASCII datatype IRIs of the byte lengths of the XSD IRIs (no panic, no success)",
                             "<f64 as Term>::lexical_form (finite values), <f64|i32|isize|usize as TryFromTerm>::try_from_term (api/src/term/_native_literal.rs)",
                             "./check C20 --replay <this file>   # replay_src/c20")
     rep.not_covered += ["finite f64 values beyond the sampled ones (shortest round-trip formatting / dec2flt are out of CBMC's reach: bounded native stand-in only)", "isize full-domain lexical space (CBMC memory; usize and i32 are covered)",
